@@ -1,12 +1,15 @@
 ---- MODULE HseqMC ----
-(* C03, exhaustive: on every shape within the bound the unfold-as-coded equals the declarative listing, the scans
-   return the first match, selection keeps the request order. *)
-EXTENDS LayoutShapes, Hseq
-Spec == Init /\ [][Next]_sh
+(* C03, exhaustive: on every shape within the bound (and on the boundary shapes) the unfold-as-coded equals the
+   declarative listing, the scans return the first match, selection keeps the request order. *)
+EXTENDS LayoutShapes, Hseq, LayoutBoundary
+CONSTANTS WithBoundary
+MCInit == sh \in (IF WithBoundary THEN {<<>>} \cup BoundarySet ELSE {<<>>})
+Spec == MCInit /\ [][Next]_sh
+
 C03_Listing == UnfoldIsListing(sh)
 C03_Lookup == ScansAreFirstMatch(sh, "zz", "float64")
 C03_InBounds == ByValueInBounds(sh)
-\* New(names) keeps the requested order (checked for all pairs of keys, both orders, and the repeated key)
+\* New(names) keeps the requested order (all pairs of keys, both orders, the repeated key); FMapN is positional
 C03_Select == LET u == Unfold(sh)  l == Listing(sh) IN
   \A a \in KeysOf(l), b \in KeysOf(l) :
      LET ix == NewByNames(u, <<a, b>>) IN ix = <<FirstKey(l, a), FirstKey(l, b)>> /\ FMapN(ix, 2) = ix /\ FMapN(ix, 3) = <<>>
